@@ -362,6 +362,12 @@ pub fn check(plans: &[Plan], recs: &[RunRec]) -> Outcome {
             if !c.m2 || c.m1 {
                 continue;
             }
+            // C12's clause speaks of a search that has completed a 3-ply iteration (a minimised
+            // script may have shrunk the later `go depth 3` to `go depth 0`, which owes nothing)
+            if !later.go.infos.iter().filter_map(|i| super::c14::parse_info(&i.text).ok()).any(|i| i.depth == 3) {
+                out.stats.inc("later_search_vacuous_no_depth3_iteration");
+                continue;
+            }
             let verdict = pos
                 .find_uci(mv)
                 .map_or(("lost", "the move is not legal".to_string()), |m| super::c12::forced_mate_verdict(pos, m));
